@@ -18,7 +18,8 @@ RULE = ('timelines over the grid ping_interval {0.5,1,1.5,25,0.3} x '
         '{on,off} x ws read-timeout modelled or not x PONG delay in {0, pt/2, '
         'pt-2^-10} x random extra traffic (sends, posts); each '
         'timeline runs >= 20 heartbeat cycles, then a seeded subset of peers '
-        'goes silent. distinct = distinct (server, pi, pt, n, monitor, '
+        'goes silent, in half of the monitored timelines under continuous client '
+        'churn (a session connecting / leaving every ping_timeout/5). distinct = distinct (server, pi, pt, n, monitor, '
         'transport mix, delay class) configurations x oracle kinds evaluated')
 ASSUMPTIONS = ['PONG delay exactly equal to ping_timeout is not generated: at '
                'equality the poll / read deadline of interval+timeout falls at '
@@ -26,6 +27,7 @@ ASSUMPTIONS = ['PONG delay exactly equal to ping_timeout is not generated: at '
                'ordering of simultaneous events',
                'tolerance 2^-20 s on virtual timestamps (epoch 2^20)']
 REQUIRED = ['ping_schedule', 'accuracy_cycles', 'detection_bound',
+            'detection_under_churn',
             'send_after_deadline', 'starved_poll', 'clock_reads']
 SHARD_TIMEOUT = {'quick': 500, 'thorough': 3400}
 
@@ -167,7 +169,23 @@ def _timeline(rec, rng, sim, R, V, srv, pi, pt, n, monitor, rto, desc):
     bound = pi + 3 * pt
     t0 = sim.now
     if monitor:
-        sim.advance(bound + pi + pt)
+        if rng.random() < 0.5:
+            # client churn while the silent peers wait for the sweep: a
+            # short-lived session connects every ping_timeout/5 and leaves
+            # (CLOSE by POST, which reaps it at once) one step later
+            rec.count('detection_under_churn')
+            t_end = sim.now + bound + pi + pt
+            prev = None
+            while sim.now < t_end:
+                c = R.open('polling', autopoll=True, autopong=0)
+                c.plan = 'churn'
+                c.delay = 0
+                if prev is not None and prev.accepted:
+                    R.post_raw(prev, '1')
+                prev = c
+                sim.advance(pt / 5.0)
+        else:
+            sim.advance(bound + pi + pt)
         for s in victims:
             rec.count('detection_bound')
             d = R.disconnects(s)
